@@ -4,6 +4,7 @@
 //   driver expect_generic            in_pred= in_line=
 //   driver expect_raises <E>         in_fn= in_line=          (in_fn: 0 returns, k throws kind k of contracts/verif.h)
 //   driver macro <name> <T>          in_a= in_b= | in_fn=
+#include <string.h>
 #include "replay/common/args.hh"
 #include "UnitTest.hh"
 #include <new>
@@ -103,6 +104,29 @@ template <typename T> static int macro_rel(const std::string& n, T a, T b) {
   return 0;
 }
 
+// expect(p) / expect_msg(p, m) with an operand of type T: fails exactly when p converts to false (p == 0)
+template <typename T>
+static int macro_expect(const std::string& n, T a) {
+  int na = 0, nb = 0;
+  static const char* const MSG = "given message";
+  bool threw = false; uint64_t ln = 0, eline = 0; std::string efile, emsg;
+  try {
+    if (n == "expect") { ln = __LINE__; expect((na++, a)); nb = 1; }
+    else { ln = __LINE__; expect_msg((na++, a), (nb++, MSG)); }
+  } catch (const expectation_failed& e) { threw = true; eline = e.line; efile = e.file; emsg = e.msg; if (n == "expect") nb = 1; }
+  printf("%s(%Lg)\n", n.c_str(), (long double)a);
+  RCHECK(threw == (a == 0), "%s(%Lg) %s", n.c_str(), (long double)a, threw ? "threw although the predicate is true (non-zero)" : "did not throw");
+  RCHECK(na == 1 && nb == 1, "%s evaluated its operands %d / %d times", n.c_str(), na, nb);
+  if (threw) {
+    RCHECK(eline == ln && efile == __FILE__, "%s failure carries %s:%llu, call site is %s:%llu", n.c_str(), efile.c_str(),
+           (unsigned long long)eline, __FILE__, (unsigned long long)ln);
+    std::string want = n == "expect" ? "!((na++, a))" : MSG;
+    RCHECK(emsg == want, "%s failure message is \"%s\", expected \"%s\"", n.c_str(), emsg.c_str(), want.c_str());
+  }
+  printf("holds on this input\n");
+  return 0;
+}
+
 int main(int argc, char** argv) {
   Args A(argc, argv);
   const std::string& m = A.mode;
@@ -146,23 +170,11 @@ int main(int argc, char** argv) {
   if (m == "macro" && A.extra.size() == 2) {
     const std::string& n = A.extra[0];
     if (n == "expect" || n == "expect_msg") {
-      int64_t a = (int64_t)A.u("in_a"); int na = 0, nb = 0;
-      static const char* const MSG = "given message";
-      bool threw = false; uint64_t ln = 0, eline = 0; std::string efile, emsg;
-      try {
-        if (n == "expect") { ln = __LINE__; expect((na++, a)); nb = 1; }
-        else { ln = __LINE__; expect_msg((na++, a), (nb++, MSG)); }
-      } catch (const expectation_failed& e) { threw = true; eline = e.line; efile = e.file; emsg = e.msg; if (n == "expect") nb = 1; }
-      RCHECK(threw == (a == 0), "%s(%lld) %s", n.c_str(), (long long)a, threw ? "threw" : "did not throw");
-      RCHECK(na == 1 && nb == 1, "%s evaluated its operands %d / %d times", n.c_str(), na, nb);
-      if (threw) {
-        RCHECK(eline == ln && efile == __FILE__, "%s failure carries %s:%llu, call site is %s:%llu", n.c_str(), efile.c_str(),
-               (unsigned long long)eline, __FILE__, (unsigned long long)ln);
-        std::string want = n == "expect" ? "!((na++, a))" : MSG;
-        RCHECK(emsg == want, "%s failure message is \"%s\", expected \"%s\"", n.c_str(), emsg.c_str(), want.c_str());
-      }
-      printf("holds on this input\n");
-      return 0;
+      const std::string& ty = A.extra[1];
+      if (ty == "double") { double a; uint64_t bits = A.u("in_a"); memcpy(&a, &bits, 8); return macro_expect<double>(n, a); }
+      if (ty == "float") { float a; uint32_t bits = (uint32_t)A.u("in_a"); memcpy(&a, &bits, 4); return macro_expect<float>(n, a); }
+      if (ty == "uint64_t") return macro_expect<uint64_t>(n, A.u("in_a"));
+      return macro_expect<int64_t>(n, (int64_t)A.u("in_a"));
     }
     if (n == "expect_raises") {
       uint64_t k = A.u("in_fn"); int na = 0;
